@@ -75,13 +75,13 @@ def parseOp (kind : String) (kv : KV) : Option Op :=
   | "block" => some (.block (intOf (kv.get "t")) (intOf (kv.get "h")))
   | "send" => some (.send (kv.get "src") (kv.get "dst") (unesc (kv.get "d")) (natOf (kv.get "amt")))
   | "params" => some (.updateParams (kv.get "auth" == "1") (parseParamsIn kv))
-  | "calc" => some (.calc (applyParams emptyParams kv) (natOf (kv.get "x")) (natOf (kv.get "epp")) (natOf (kv.get "b")))
+  | "calc" => some (.sample (applyParams emptyParams kv) (natOf (kv.get "x")) (natOf (kv.get "epp")) (natOf (kv.get "b")))
   | _ => none
 
 def parseResp (kind : String) (kv : KV) : Resp :=
   match kind with
   | "block" => .block (parseLog (kv.get "log"))
-  | "calc" => .calc (natOf (kv.get "p")) (if kv.get "q" == "panic" then none else some (natOf (kv.get "q")))
+  | "calc" => .sample (natOf (kv.get "p")) (if kv.get "q" == "panic" then none else some (natOf (kv.get "q")))
   | _ => .none
 
 def isNeg (s : String) : Bool := s.startsWith "-"
@@ -160,7 +160,7 @@ def opTag (env : Env) (s : State) : Op → String × String
   | .updateParams auth p =>
     ((if !auth then "params-auth" else if !p.valid then "params-invalid"
       else if p.enable != s.infl.params.enable then "params-toggle" else "params-same-enable"), "-")
-  | .calc p x _ b =>
+  | .sample p x _ b =>
     (s!"calc-r{decClass p.r}-v{decClass p.maxVariance}-{if p.bondingTarget ≤ b then "capped" else "below"}",
      if x == 0 then "x0" else if x < 64 then "x<64" else if x < 1024 then "x<1024" else "x>=1024")
 
